@@ -8,24 +8,34 @@ from ..rules.skeleton import Interp, U
 from ..util import switch_table, find_switches, is_assign
 
 EXPLANATION = (
-    "Static decision of structural clauses of C16: (1) "
-    "carquet_reader_row_group_matches is executed abstractly with the two comparison results forced to "
-    "each of the 6 feasible sign pairs of the probe against min <= max, for each of the 6 operators (36 "
-    "cells, every path): no path may report `no match` where some x in [min,max] satisfies `x op value`, "
-    "*might_match is assigned on every path and a failing statistics lookup never yields `no match`; the interval tables of "
-    "carquet_statistics_compare, carquet_statistics_range_overlaps and "
-    "carquet_column_index_page_might_match are evaluated the same way over {<,=,>}; the comparator is "
-    "called as cmp(probe, bound) with the right bound; (2) the bounds are compared only after the has_min_max "
-    "test; filter_row_groups, executed over scenarios of up to 3 row groups x {match, no match, error} x 3 "
-    "capacities, returns exactly the ascending, capped list of groups that matched or failed; (3) all type->comparator switch tables "
-    "agree per physical type and the typed types never fall to the byte comparator; comparator bodies "
-    "order by the value of their own width/type (floating comparators compare floating operands); "
-    "(4) floating min/max updates are NaN-guarded, every memcpy into the fixed min/max arrays is "
-    "bounded, and on the edge where a value is too long for the max storage the copy is unreachable within "
-    "the iteration (rejected, never truncated); (5) null_count is accumulated as num_values - num_non_null; (6) on the whole path builder -> "
-    "Thrift struct -> reader view -> page index -> predicate, every store into a min_* (max_*) member or "
-    "local reads only min (max) sources and every (pointer, size) argument pair names one bound. Decides these clauses, not "
-    "that written min/max bound the data for every input.")
+    "Static decision of structural clauses of C16, mostly by abstract execution with real integer "
+    "statistics (the statistics lookup is hooked to hand out [min, max]; the repository's own comparators "
+    "read the values through their pointers; INT32 and INT64; bounds and probes range over a grid that "
+    "realises every ordering of probe, min and max): (1) carquet_reader_row_group_matches never reports "
+    "`no match` when some x in [min,max] satisfies `x op value`, for each of the six operators; "
+    "*might_match is assigned on every path; a failing statistics lookup returns its status and no `no "
+    "match`; without min/max the group is a possible match; carquet_statistics_compare reports a probe "
+    "out of range only below a present minimum / above a present maximum; "
+    "carquet_statistics_range_overlaps and carquet_column_index_page_might_match never answer `no` for a "
+    "query range (open ends included) that meets the stored one; (2) filter_row_groups, executed over "
+    "scenarios of up to 3 row groups x {match, no match, error} x 3 capacities, returns exactly the "
+    "ascending, capped list of groups that matched or failed; (3) which comparator orders each physical "
+    "type, in statistics_compare, range_overlaps, add_values and row_group_matches: executed once per "
+    "type with the named comparators hooked - a typed type never reaches the byte comparator (switch, "
+    "if-chain or a table of function pointers alike); comparator bodies order by the value of their own "
+    "width/type and the floating ones place NaN; (4) floating min/max updates of the page writer are "
+    "NaN-guarded; every memcpy into the fixed min/max arrays is bounded - by constants or guards for the "
+    "page writer (a length that is a helper parameter is decided at the call sites), by execution over "
+    "types x type lengths x value lengths for the statistics builder, where a value is also stored whole "
+    "or not at all; add_values / add_byte_arrays followed by carquet_statistics_build, with comparators "
+    "hooked to answer <, =, >: a value below/above the bounds replaces them, the first value becomes "
+    "both, and after a value too long to keep build() publishes no bounds; (5) null_count is accumulated "
+    "as num_values - num_non_null; (6) min/max polarity: every store into a min_* (max_*) member or local "
+    "reads only min (max) sources and every (pointer, size) argument pair names one bound; (7) "
+    "carquet_column_index_add_page records a page as a null page exactly when its caller says so and "
+    "copies exactly the non-empty bounds it was given. Decides these clauses, not that written min/max "
+    "bound the data for every input, nor floating-point and byte-array orderings beyond the "
+    "comparator-table clause.")
 
 RS = "src/reader/statistics.c"
 MS = "src/metadata/statistics.c"
